@@ -138,9 +138,8 @@ Lemma parse_value_spec : forall k v vs fv vs',
 Proof.
   intros k v vs fv vs' H Hnd. destruct v; cbn [parse_value] in H.
   - destruct (vars_add vs x (variable_type k)) as [vs1|] eqn:Ea; [|discriminate]. inversion H; subst.
-    destruct (vars_add_spec _ _ _ _ Ea Hnd) as (H1 & H2 & H3). repeat split; auto.
-    + intros y Hy. inversion Hy; subst. reflexivity.
-    + inversion H0; subst. exact H2.
+    destruct (vars_add_spec _ _ _ _ Ea Hnd) as (H1 & H2 & H3). split; [exact H1|]. split; [exact H3|].
+    intros y Hy. inversion Hy; subst. split; [reflexivity|exact H2].
   - destruct (field_nullable k); [|discriminate]. inversion H; subst. repeat split; auto using incl_refl; intros; discriminate.
   - destruct (field_type k); try discriminate; inversion H; subst; repeat split; auto using incl_refl; intros; discriminate.
   - destruct (field_type k); try discriminate; [inversion H; subst; repeat split; auto using incl_refl; intros; discriminate|].
